@@ -60,6 +60,18 @@ void roundTrip(const std::string& F, const std::string& source, const std::strin
 		R_viol("raw-fixed-point", d.site, source + ": rawsave(load(N)) != N; " + d.detail);
 	}
 
+	// the file-name routes Load(path) / Save(path) give the same bytes as the stream routes (real samples and API models)
+	if (source.rfind("real:", 0) == 0 || source.rfind("api:", 0) == 0) {
+		R_phase("by-file-name");
+		NifFile f;
+		if (loadNifByName(f, F) != 0) R_viol("file-name-route", vclass + "/load", source + ": Load(file name) rejects a file that Load(stream) accepts");
+		else {
+			std::string out = saveNifByName(f, true);
+			if (out != N) { FileDiff d = diffFiles(N, out, vclass); R_viol("file-name-route", "raw/" + d.site, source + ": Load(file name) + Save(file name) writes other bytes than the stream routes; " + d.detail); }
+			R_stat("file_name_round_trips");
+		}
+	}
+
 	// the same file through an object that has held another model before: same bytes (1 case in 3)
 	if (hashStr(source) % 3 == 0) {
 		R_phase("used-object");
